@@ -1,7 +1,7 @@
 #!/bin/bash
 # runs every registered quick check once; prints id, exit code, seconds
 cd "$(dirname "$0")/.."
-./check.py setup || exit 2
+mkdir -p out; ./check.py setup || exit 2
 for p in $(python3 -c "import json; print(' '.join(c['property_id'] for c in json.load(open('MANIFEST.json'))['checks']))"); do
   s=$(date +%s); ./check.py $p ${1:-quick} > out/all_$p.log 2>&1; rc=$?; e=$(date +%s)
   echo "$p rc=$rc $((e-s))s $(grep -c VIOLATION out/all_$p.log) violations $(grep TOOL-ERROR out/all_$p.log | head -1 | cut -c1-200)"
